@@ -22,7 +22,7 @@ struct Env {   // array operands
   int n, m, vm;
   aVector XP, YP, ZP, TP, X, Y, Z, T;
   aMatrix M, N, M2;
-  adouble s, s2; double p; Vector P; intVector idx;
+  adouble s, s2; double p; Vector P; intVector idxP, idx;   // idx: a view of idxP with the same stride pattern as X, Y, Z, T
 };
 struct Ref {   // the same data as plain scalars
   int n, m;
@@ -39,7 +39,9 @@ static void fill(Env& e, Ref& r, int n, int m, int vm) {
   if (vm == 0) { e.X >>= e.XP; e.Y >>= e.YP; e.Z >>= e.ZP; e.T >>= e.TP; }
   else if (vm == 1) { e.X >>= e.XP(stride(0, 2 * n - 2, 2)); e.Y >>= e.YP(stride(0, 2 * n - 2, 2)); e.Z >>= e.ZP(stride(0, 2 * n - 2, 2)); e.T >>= e.TP(stride(0, 2 * n - 2, 2)); }
   else { e.X >>= e.XP(stride(n - 1, 0, -1)); e.Y >>= e.YP(stride(n - 1, 0, -1)); e.Z >>= e.ZP(stride(n - 1, 0, -1)); e.T >>= e.TP(stride(n - 1, 0, -1)); }
-  e.M.resize(m, n); e.N.resize(m, n); e.M2.resize(m, n); e.P.resize(n); e.idx.resize(n);
+  e.M.resize(m, n); e.N.resize(m, n); e.M2.resize(m, n); e.P.resize(n);
+  e.idxP.resize(np); e.idxP = 0;
+  if (vm == 0) e.idx >>= e.idxP; else if (vm == 1) e.idx >>= e.idxP(stride(0, 2 * n - 2, 2)); else e.idx >>= e.idxP(stride(n - 1, 0, -1));
   r.x.resize(n); r.y.resize(n); r.z.resize(n); r.t.resize(n); r.M.resize(m * n); r.N.resize(m * n); r.M2.resize(m * n); r.P.resize(n); r.idx.resize(n);
   for (int i = 0; i < n; ++i) {
     double a = val(), b = val(), c = val(), d = val(), pp = val();
